@@ -21,34 +21,14 @@ SCORE = {
 }
 
 
-MAKE_ROUTES = ("direct", "direct", "copy", "copy_kw", "rebuild", "numpy_scalars")
-
-
 def make(method):
-    """The decision maker of a case.  It is built directly, or obtained the other public ways a configured method can
-    be obtained - copy(), default object + copy(**parameters), rebuilt from get_parameters(), parameters given as
-    numpy scalars - chosen by a hash of the spec so that replays are exact.  All of them are the same method."""
-    import json
-    import zlib
+    """The decision maker of a case, obtained one of the public ways a configured method can be obtained
+    (impl.variant: constructor, copy(), rebuilt from get_parameters(), positional arguments, fresh / numpy-typed
+    parameter values, pickle round trip, default + copy(**kw)); all of them are the same method."""
     base = make_direct(method)
     if method.get("route") == "direct":
         return base
-    route = MAKE_ROUTES[zlib.crc32(json.dumps(method, sort_keys=True, default=str).encode()) % len(MAKE_ROUTES)]
-    params = base.get_parameters()
-    if route == "copy":
-        return base.copy()
-    if route == "rebuild":
-        return type(base)(**params)
-    if route == "copy_kw" and params:
-        try:
-            return type(base)().copy(**params)
-        except TypeError:
-            return base
-    if route == "numpy_scalars" and params:
-        kw = {k: (np.float64(v) if isinstance(v, float) else np.int64(v) if isinstance(v, int) and not isinstance(v, bool) else v)
-              for k, v in params.items()}
-        return type(base)(**kw)
-    return base
+    return I.variant(type(base), base.get_parameters(), method)
 
 
 def make_direct(method):
